@@ -209,12 +209,20 @@ pub fn put_case(r: &mut Rng, n: usize, kind: u8, tokenless: Vec<bool>, script: V
 
 /// second put_mutable while the first is at a given stage: 0 = lookup running, 1 = store phase, 2 = completed
 pub fn conflict_case(r: &mut Rng, stage: u8, same_item: bool, seq2: i64, cas2: Option<i64>) -> String {
+    conflict_case_x(r, stage, same_item, seq2, cas2, false)
+}
+
+/// `memory`: the peers behave like BEP44 stores for this key (they hold seq 9 at the start): a store request whose cas
+/// differs from the seq they hold is answered 301, a lower seq 302, anything else is stored and acknowledged.
+/// With `same_item` the second call carries the same signed item, with `cas2` as its cas.
+pub fn conflict_case_x(r: &mut Rng, stage: u8, same_item: bool, seq2: i64, cas2: Option<i64>, memory: bool) -> String {
     let n = 4;
     let mut s = Scn::new(r, n, false, Default::default());
     let sk = SigningKey::from_bytes(&[9u8; 32]);
     let seq1: i64 = 10;
     let req1 = make_request(r, 1, seq1, None, b"first", &sk);
-    let req2 = if same_item { req1.clone() } else { make_request(r, 1, seq2, cas2, b"second", &sk) };
+    let req2 = if same_item { make_request(r, 1, seq1, cas2, b"first", &sk) } else { make_request(r, 1, seq2, cas2, b"second", &sk) };
+    let mut held: Vec<i64> = vec![9; n];
     let (tx1, rx1) = flume::unbounded();
     s.node.actor.verif_put(req1.clone(), tx1, None);
     let tokenless = vec![false; n];
@@ -242,6 +250,10 @@ pub fn conflict_case(r: &mut Rng, stage: u8, same_item: bool, seq2: i64, cas2: O
                     deliver(&mut s, *p, *tid, Act::Ack);
                     s.step(&mut |s, inc| s.honest(inc));
                 }
+            }
+            // the store requests of the first put have reached the peers
+            for (p, _, _) in run.puts.iter() {
+                held[*p] = seq1;
             }
             run1 = Some(run);
         }
@@ -276,7 +288,25 @@ pub fn conflict_case(r: &mut Rng, stage: u8, same_item: bool, seq2: i64, cas2: O
         s.peers[*p].send(*from, *tid, mt, false, None);
     }
     for _ in 0..400 {
-        s.step(&mut |s, inc| s.honest(inc));
+        s.step(&mut |s, inc| {
+            if memory {
+                if let Some(rq) = as_request(&inc.msg) {
+                    if let RequestTypeSpecific::Put(p) = &rq.request_type {
+                        if let PutRequestSpecific::PutMutable(a) = &p.put_request_type {
+                            let h = held[inc.peer];
+                            if matches!(a.cas, Some(c) if c != h) {
+                                return Reply::Msg(MessageType::Error(ErrorSpecific { code: 301, description: "cas".into() }));
+                            }
+                            if a.seq < h {
+                                return Reply::Msg(MessageType::Error(ErrorSpecific { code: 302, description: "seq".into() }));
+                            }
+                            held[inc.peer] = a.seq;
+                        }
+                    }
+                }
+            }
+            s.honest(inc)
+        });
         if fin1.is_none() {
             fin1 = rx1.try_recv().ok();
         }
@@ -393,6 +423,12 @@ pub fn generate(seed: u64, scale: usize, which: &str) -> Cases {
         // the rule table at every stage
         for stage in 0..3u8 {
             cases.push(&format!("stage{}_same", stage), conflict_case(&mut r, stage, true, 10, None));
+            // the same signed item again, this time with a cas (right for what the nodes held before the first put, or wrong),
+            // against peers that always acknowledge and against peers that keep the BEP44 seq / cas rules
+            for cas in [Some(9i64), Some(10), Some(77)] {
+                cases.push(&format!("stage{}_same_with_cas", stage), conflict_case_x(&mut r, stage, true, 10, cas, false));
+                cases.push(&format!("stage{}_same_with_cas_storing_peers", stage), conflict_case_x(&mut r, stage, true, 10, cas, true));
+            }
             for (seq2, cas2) in [(9i64, None), (9, Some(10i64)), (10, None), (11, None), (11, Some(10)), (11, Some(9)), (11, Some(11)), (10, Some(10)), (i64::MAX, Some(10)), (i64::MIN, None)] {
                 cases.push(&format!("stage{}_diff", stage), conflict_case(&mut r, stage, false, seq2, cas2));
             }
